@@ -36,9 +36,13 @@ def run(prog: Program, rep: Report, tier: str) -> None:
                 # indexing: must be guarded by len(acc) == 1
                 guarded = False
                 p = par
+                child = par
                 while p is not None:
-                    p = pm.get(id(p))
+                    child, p = p, pm.get(id(p))
                     if isinstance(p, ast.If) and norm(p.test) in (f"len({acc}) == 1", f"1 == len({acc})"):
+                        guarded = True
+                    # the same guard as a conditional expression: acc[0] if len(acc) == 1 else ...
+                    if isinstance(p, ast.IfExp) and norm(p.test) in (f"len({acc}) == 1", f"1 == len({acc})") and child is p.body:
                         guarded = True
                 if not guarded:
                     bad.append(f"{norm(par)} at line {u.lineno} is not guarded by len({acc}) == 1")
